@@ -268,6 +268,78 @@ def tool_chain(src, r, idx):
     return recipe, None
 
 
+def killed_run(src, r, idx):
+    """a recording run that ends abnormally (SIGKILL at its k-th device write, no exit handlers):
+    e2undo must still restore every block and may only mark the filesystem as needing a check"""
+    os.makedirs(WORK, exist_ok=True)
+    img = os.path.join(WORK, "kill_%d.img" % idx)
+    und = os.path.join(WORK, "kill_%d.undo" % idx)
+    for f in (img, und):
+        if os.path.exists(f):
+            os.unlink(f)
+    T = lambda name: os.path.join(src, name)
+    bs = r.choice([1024, 2048, 4096])
+    feats = r.choice(["-t ext4", "-t ext4 -O ^flex_bg", "-t ext3", "-t ext2"])
+    env = e2v.tool_env(src, E2FSPROGS_UNDO_DIR=WORK)
+    rc, out = e2v.sh([T("misc/mke2fs"), "-q", "-F", "-b", str(bs)] + feats.split() + [img, "12M"], env=env, timeout=120)
+    if rc != 0:
+        return {"mke2fs": feats, "rc": rc}, None
+    if r.random() < 0.5:    # an earlier, complete recording run in the same undo file
+        e2v.sh([T("misc/tune2fs"), "-z", und, "-L", "first", img], env=env, timeout=120)
+        e2v.sh([T("misc/e2undo"), und, img], timeout=120)
+        os.unlink(und)
+    orig = open(img, "rb").read()
+    menu = [
+        ([T("debugfs/debugfs"), "-w", "-z", und, "-f", "-", img], ("write /etc/services svc\nmkdir d1\nwrite /etc/passwd d1/p\nset_super_value mnt_count 5\nmkdir d2\n").encode()),
+        ([T("tune2fs") if False else T("misc/tune2fs"), "-z", und, "-O", "^has_journal" if "ext2" not in feats else "dir_index", "-c", "9", img], None),
+        ([T("e2fsck/e2fsck"), "-fyD", "-z", und, img], None),
+        ([T("resize/resize2fs"), "-z", und, img, "9M"], None),
+    ]
+    cmd, inp = r.choice(menu)
+    # how many device writes does the complete run perform?
+    probe = img + ".probe"
+    open(probe, "wb").write(orig)
+    pc = [probe if x == img else (und + ".probe" if x == und else x) for x in cmd]
+    if os.path.exists(und + ".probe"):
+        os.unlink(und + ".probe")
+    rc, out, ev = e2v.traced(pc, probe, probe + ".trace", env=env, timeout=180, input=inp)
+    nw = len([e for e in ev if e[0] == "W"])
+    for f in (probe, probe + ".trace", und + ".probe"):
+        if os.path.exists(f):
+            os.unlink(f)
+    if nw < 2:
+        return {"cmd": os.path.basename(cmd[0]), "writes": nw}, None
+    k = r.randint(2, nw)
+    rc, out, ev = e2v.traced(cmd, img, img + ".trace", env=env, timeout=180, kill_at=k, input=inp)
+    recipe = {"bs": bs, "features": feats, "cmd": " ".join(os.path.basename(x) if "/" in x else x for x in cmd), "device_writes": nw, "killed_at_write": k, "rc": rc}
+    mid = open(img, "rb").read()
+    rc2, out2 = e2v.sh([T("misc/e2undo"), und, img], timeout=120)
+    if rc2 != 0 and "doesn't match the undo file" in out2:
+        # the run died between recording the superblock copy and a later superblock write: the
+        # property lets e2undo refuse a mismatching superblock unless forced
+        if open(img, "rb").read() != mid:
+            return recipe, "e2undo refused (superblock mismatch) but wrote to the device"
+        recipe["forced"] = True
+        rc2, out2 = e2v.sh([T("misc/e2undo"), "-f", und, img], timeout=120)
+    recipe["e2undo_rc"] = rc2
+    now = open(img, "rb").read()
+    for f in (img + ".trace",):
+        if os.path.exists(f):
+            os.unlink(f)
+    if not os.path.exists(und):
+        if mid[:len(orig)] != orig:
+            return recipe, "the device was modified but no undo file exists"
+        return recipe, None
+    bad = [i for i in range(len(orig)) if i >= len(now) or now[i] != orig[i]]
+    # marking the filesystem as needing a check rewrites s_state (and with it s_wtime, the written-kilobytes counter and the checksum)
+    allowed = set(range(1024 + 0x3A, 1024 + 0x3C)) | set(range(1024 + 0x3FC, 1024 + 0x400)) | set(range(1024 + 0x30, 1024 + 0x34)) | set(range(1024 + 0x178, 1024 + 0x180))
+    bad = [i for i in bad if i not in allowed]
+    if bad:
+        return recipe, "after the killed run, e2undo (exit %d: %s) leaves %d bytes different from the original outside s_state/s_wtime/s_kbytes_written/s_checksum, first at %d" % (
+            rc2, out2.strip().split("\n")[-1][:80], len(bad), bad[0])
+    return recipe, None
+
+
 def run(res, replay=None):
     tier, seed = res.tier, res.seed
     src = e2v.ensure_build()
@@ -360,6 +432,21 @@ def run(res, replay=None):
     res.cov["oracle"]["evaluations"] += nch
     for recipe, why in chain_bad[:2]:
         res.violation("oracle", {"chain": recipe, "note": why}, signature="c12chain:" + json.dumps([x["cmd"].split()[0] for x in recipe["steps"]]))
+
+    # recording runs that end abnormally
+    e2v.build_iotrace()
+    nk = 16 if tier == "quick" else 400
+    with concurrent.futures.ThreadPoolExecutor(8) as ex:
+        kouts = list(ex.map(lambda i: killed_run(src, e2v.rng(seed, "c12kill", i), i), range(nk)))
+    kill_bad = [(rc_, why) for rc_, why in kouts if why]
+    res.sample({"killed_run": kouts[0][0]})
+    res.cov["oracle"]["killed_runs"] = nk
+    res.cov["oracle"]["killed_runs_with_undo_applied"] = sum(1 for rc_, _ in kouts if rc_.get("e2undo_rc") == 0)
+    res.cov["oracle"]["failures"] += len(kill_bad)
+    res.cov["oracle"]["evaluations"] += nk
+    chain_bad += [({"steps": [{"cmd": rc_.get("cmd", "?")}], "killed": rc_}, why) for rc_, why in kill_bad]
+    for rc_, why in kill_bad[:2]:
+        res.violation("oracle", {"killed_run": rc_, "note": why}, signature="c12kill:" + rc_.get("cmd", "?").split()[0] + ":%s" % rc_.get("killed_at_write"))
 
     def fails(g, ops):
         rr = run_batch(hexe, mexe, e2undo, [(g, ops)], "m")[0]
